@@ -3461,7 +3461,7 @@ static bool is_function(Token *tok) {
 
 // Remove redundant tentative definitions.
 static void scan_globals(void) {
-  Obj head;
+  Obj head = {};
   Obj *cur = &head;
 
   for (Obj *var = globals; var; var = var->next) {
@@ -3470,15 +3470,21 @@ static void scan_globals(void) {
       continue;
     }
 
-    // Find another definition of the same identifier.
-    Obj *var2 = globals;
-    for (; var2; var2 = var2->next)
-      if (var != var2 && var2->is_definition && !strcmp(var->name, var2->name))
-        break;
+    // Find another definition of the same identifier: a real one
+    // anywhere, or a tentative one that has already been kept. (Two
+    // tentative definitions must not cancel each other.)
+    bool redundant = false;
+    for (Obj *var2 = head.next; var2 && !redundant; var2 = (var2 == cur) ? NULL : var2->next)
+      if (var2->is_tentative && !strcmp(var->name, var2->name))
+        redundant = true;
+    for (Obj *var2 = globals; var2 && !redundant; var2 = var2->next)
+      if (var != var2 && var2->is_definition && !var2->is_tentative &&
+          !strcmp(var->name, var2->name))
+        redundant = true;
 
     // If there's another definition, the tentative definition
     // is redundant
-    if (!var2)
+    if (!redundant)
       cur = cur->next = var;
   }
 
